@@ -514,3 +514,25 @@ Proof. reflexivity. Qed.
 Lemma src_rc_DropCacheRegion_ok : src_rc_DropCacheRegion =
   "{ v0.RLock() defer v0.RUnlock() if v2 := v0.GetRegion(v1); v2 != nil { v0.core.RemoveRegion(v2) } }".
 Proof. reflexivity. Qed.
+
+(* ---- the ways into the region cache: every call site (outside tests) of the functions that write it.  The drivers go through
+   processRegionHeartbeat / PutRegion / CheckAndPutLoadedRegion / DropCacheRegion; a new admin, recovery or feature path (or a second
+   call in a listed function) changes one of these lists ---- *)
+Lemma cache_writer_sites_PutRegion_ok : cache_writer_sites_PutRegion =
+  ["pkg/mock/mockcluster/mockcluster.go:AddLeaderRegion"; "pkg/mock/mockcluster/mockcluster.go:AddLeaderRegionWithRange"; "pkg/mock/mockcluster/mockcluster.go:AddLeaderRegionWithWriteInfo"; "pkg/mock/mockcluster/mockcluster.go:AddRegionLeaderWithReadInfo"; "pkg/mock/mockcluster/mockcluster.go:AddRegionWithLearner"; "pkg/mock/mockcluster/mockcluster.go:AddRegionWithPeerReadInfo"; "pkg/mock/mockcluster/mockcluster.go:AddRegionWithReadInfo"; "pkg/mock/mockcluster/mockcluster.go:LoadRegion"; "pkg/mock/mockcluster/mockcluster.go:PutRegionStores"; "server/cluster/cluster.go:processRegionHeartbeat"; "server/cluster/cluster.go:putRegion"; "server/core/basic_cluster.go:CheckAndPutRegion"; "server/schedule/test_util.go:ApplyOperator"].
+Proof. reflexivity. Qed.
+Lemma cache_writer_sites_CheckAndPutRegion_ok : cache_writer_sites_CheckAndPutRegion =
+  ["server/core/basic_cluster.go:CheckAndPutLoadedRegion"; "server/region_syncer/client.go:StartSyncWithLeader"].
+Proof. reflexivity. Qed.
+Lemma cache_writer_sites_CheckAndPutLoadedRegion_ok : cache_writer_sites_CheckAndPutLoadedRegion =
+  ["server/cluster/cluster.go:LoadClusterInfo"; "server/region_syncer/client.go:StartSyncWithLeader"].
+Proof. reflexivity. Qed.
+Lemma cache_writer_sites_SetRegion_ok : cache_writer_sites_SetRegion =
+  ["server/core/basic_cluster.go:PutRegion"; "server/schedule/range_cluster.go:GenRangeCluster"].
+Proof. reflexivity. Qed.
+Lemma cache_writer_sites_RemoveRegion_ok : cache_writer_sites_RemoveRegion =
+  ["server/cluster/cluster.go:DropCacheRegion"; "server/core/basic_cluster.go:RemoveRegion"; "server/core/region.go:SetRegion"].
+Proof. reflexivity. Qed.
+Lemma cache_writer_sites_DropCacheRegion_ok : cache_writer_sites_DropCacheRegion =
+  ["server/api/admin.go:HandleDropCacheRegion"].
+Proof. reflexivity. Qed.
